@@ -55,7 +55,14 @@ static ALLOC: TrackingAlloc = TrackingAlloc;
 
 const VERSIONS: [u32; 4] = [1, 2, 3, 1000];
 /// Network magic of every chain type other than mainnet / testnet (own constant, from the protocol definition).
-const MAGIC: [u8; 2] = [73, 43];
+/// network magic of the chain type this process runs under (AutomatedTesting / UserTesting: [73, 43];
+/// the limits worker run with Mainnet parameters switches it to [97, 61])
+static MAGIC_BYTES: std::sync::atomic::AtomicU16 = std::sync::atomic::AtomicU16::new(73 * 256 + 43);
+#[allow(non_snake_case)]
+fn MAGIC() -> [u8; 2] {
+	let v = MAGIC_BYTES.load(Ordering::Relaxed);
+	[(v >> 8) as u8, (v & 255) as u8]
+}
 const HDR_LEN: usize = 11;
 const ATT_CHUNK: usize = 48_000;
 
@@ -139,7 +146,7 @@ fn frame_header(magic: [u8; 2], ty: u8, len: u64) -> Vec<u8> {
 }
 
 fn frame(ty: u8, body: &[u8]) -> Vec<u8> {
-	let mut v = frame_header(MAGIC, ty, body.len() as u64);
+	let mut v = frame_header(MAGIC(), ty, body.len() as u64);
 	v.extend_from_slice(body);
 	v
 }
@@ -1019,6 +1026,8 @@ fn socket_pair(listener: &TcpListener) -> Result<(TcpStream, TcpStream), String>
 	let (server, _) = listener.accept().map_err(|e| format!("accept: {}", e))?;
 	let _ = client.set_nodelay(true);
 	let _ = server.set_nodelay(true);
+	// no sender of the harness may block for ever on a receiver that stopped reading
+	let _ = client.set_write_timeout(Some(Duration::from_secs(15)));
 	Ok((client, server))
 }
 
@@ -1890,7 +1899,7 @@ struct LCase {
 	vi: usize,
 }
 
-fn limit_cases(scale: u32, hdrs: &[Vec<u8>]) -> Vec<LCase> {
+fn limit_cases(scale: u32, hdrs: &[Vec<u8>], mainnet: bool) -> Vec<LCase> {
 	let mut v: Vec<LCase> = vec![];
 	let mut id = 1u64;
 	let mut types: Vec<u8> = (0u8..=28).collect();
@@ -1926,7 +1935,7 @@ fn limit_cases(scale: u32, hdrs: &[Vec<u8>]) -> Vec<LCase> {
 				ty: *t,
 				boundary: bn,
 				len,
-				head: frame_header(MAGIC, *t, len),
+				head: frame_header(MAGIC(), *t, len),
 				body: if accept { vec![0u8; len as usize] } else { vec![] },
 				present: vec![],
 				vi: (id % 4) as usize,
@@ -1935,7 +1944,11 @@ fn limit_cases(scale: u32, hdrs: &[Vec<u8>]) -> Vec<LCase> {
 		}
 	}
 	// wrong magic
-	let magics: [[u8; 2]; 7] = [[0, 0], [73, 44], [74, 43], [43, 73], [83, 59], [97, 61], [255, 255]];
+	let mut magics: [[u8; 2]; 7] = [[0, 0], [73, 44], [74, 43], [43, 73], [83, 59], [97, 61], [255, 255]];
+	if mainnet {
+		// under Mainnet parameters [97, 61] is the right magic and the test networks' one is wrong
+		magics[5] = [73, 43];
+	}
 	for (mi, m) in magics.iter().enumerate() {
 		for (t, len) in [(3u8, 16u64), (9, 2 + 257), (11, 1 << 20), (200, 5), (17, 48), (6, u64::MAX)] {
 			if scale == 0 && (mi + t as usize) % 3 != 0 {
@@ -1955,6 +1968,28 @@ fn limit_cases(scale: u32, hdrs: &[Vec<u8>]) -> Vec<LCase> {
 			id += 1;
 		}
 	}
+	if mainnet {
+		// the count cases need mined headers of the chain type; the Mainnet pass is about the length limits
+		// (which are 170x larger there: bodies above the 48 000-byte attachment chunk size exist only here)
+		// plus unknown-type bodies around the chunk size
+		for t in [29u8, 200, 255] {
+			for len in [47_999u64, 48_000, 48_001, 96_000, 96_001, 1_000_000] {
+				v.push(LCase {
+					id,
+					class: "accept_len",
+					ty: t,
+					boundary: format!("len{}", len),
+					len,
+					head: frame_header(MAGIC(), t, len),
+					body: Prng::new(len ^ t as u64).bytes(len as usize),
+					present: vec![],
+					vi: (id % 4) as usize,
+				});
+				id += 1;
+			}
+		}
+		return v;
+	}
 	// item counts contradicting the (within-limit) length
 	let mut cc = |class: &'static str, ty: u8, desc: &str, body: Vec<u8>, present: Vec<Vec<u8>>| {
 		v.push(LCase {
@@ -1963,7 +1998,7 @@ fn limit_cases(scale: u32, hdrs: &[Vec<u8>]) -> Vec<LCase> {
 			ty,
 			boundary: desc.to_string(),
 			len: body.len() as u64,
-			head: frame_header(MAGIC, ty, body.len() as u64),
+			head: frame_header(MAGIC(), ty, body.len() as u64),
 			body,
 			present,
 			vi: (id % 4) as usize,
@@ -2107,6 +2142,9 @@ fn run_limit_case(c: &LCase, listener: &TcpListener) -> Value {
 	let server_for_shutdown = server.try_clone().ok();
 	let (tx, rx) = mpsc::channel::<Value>();
 	let case = c.clone();
+	// a receiver that stops reading early (an error, or a defect) must not block the harness in send():
+	// bounded writes; what the receiver did is judged from its own observations
+	let _ = client.set_write_timeout(Some(Duration::from_secs(10)));
 	let sender = thread::spawn(move || {
 		let mut w = &client;
 		let _ = w.write_all(&out);
@@ -2275,14 +2313,26 @@ fn run_limit_case(c: &LCase, listener: &TcpListener) -> Value {
 	obs
 }
 
-fn worker_limits(seed: u64, scale: u32) {
-	init_globals(false);
-	let hdr_pool = mine_pool(seed ^ 0x11, vec![10, 11, 10, 12, 10, 13, 10, 10]);
-	let hdrs: Vec<Vec<u8>> = hdr_pool
-		.iter()
-		.map(|h| ser::ser_vec(h, ProtocolVersion(1000)).unwrap())
-		.collect();
-	let cases = limit_cases(scale, &hdrs);
+fn worker_limits(seed: u64, scale: u32, mainnet: bool) {
+	let hdrs: Vec<Vec<u8>> = if mainnet {
+		use grin_core::global::{self, ChainTypes};
+		global::set_global_chain_type(ChainTypes::Mainnet);
+		global::set_local_chain_type(ChainTypes::Mainnet);
+		global::set_global_nrd_enabled(false);
+		global::set_local_nrd_enabled(false);
+		global::set_global_accept_fee_base(global::DEFAULT_ACCEPT_FEE_BASE);
+		global::set_global_future_time_limit(global::DEFAULT_FUTURE_TIME_LIMIT);
+		MAGIC_BYTES.store(97 * 256 + 61, Ordering::Relaxed);
+		vec![]
+	} else {
+		init_globals(false);
+		let hdr_pool = mine_pool(seed ^ 0x11, vec![10, 11, 10, 12, 10, 13, 10, 10]);
+		hdr_pool
+			.iter()
+			.map(|h| ser::ser_vec(h, ProtocolVersion(1000)).unwrap())
+			.collect()
+	};
+	let cases = limit_cases(scale, &hdrs, mainnet);
 	let next = AtomicUsize::new(0);
 	let outl = Mutex::new(std::io::stdout());
 	thread::scope(|s| {
@@ -2311,7 +2361,7 @@ fn worker_limits(seed: u64, scale: u32) {
 	println!("WORKER-DONE {}", cases.len());
 }
 
-fn parent_limits(run: &Run, scale: u32) {
+fn parent_limits(run: &Run, scale: u32, mainnet: bool) {
 	let exe = match std::env::current_exe() {
 		Ok(e) => e,
 		Err(e) => {
@@ -2321,6 +2371,7 @@ fn parent_limits(run: &Run, scale: u32) {
 	};
 	let out = std::process::Command::new(exe)
 		.arg("--worker-limits")
+		.arg(if mainnet { "--mainnet-params" } else { "--testing-params" })
 		.arg("--seed")
 		.arg(format!("{}", run.seed))
 		.arg("--scale")
@@ -2367,6 +2418,12 @@ fn parent_limits(run: &Run, scale: u32) {
 				continue;
 			}
 			run.count(&format!("limits.{}", class), 1);
+			if mainnet {
+				run.count("limit_cases_under_mainnet_parameters", 1);
+				if class == "accept_len" && ty.starts_with("Unknown") && v["next_intact"].as_bool() == Some(true) {
+					run.count("mainnet_unknown_frames_followed_by_intact_message", 1);
+				}
+			}
 			let consumed = v["consumed"].as_u64().unwrap_or(0);
 			let ms = v["max_single"].as_u64().unwrap_or(0);
 			match class.as_str() {
@@ -2434,7 +2491,7 @@ fn parent_limits(run: &Run, scale: u32) {
 	run.set_max("refusal_max_bytes_consumed", max_consumed_refused);
 	run.set_max("refusal_max_single_allocation", max_alloc_refused);
 	run.set_max("count_case_max_single_allocation", max_alloc_count);
-	run.extra("limits_table", json!(table));
+	run.extra(if mainnet { "limits_table_mainnet_parameters" } else { "limits_table" }, json!(table));
 	let code = out.status.code();
 	if code == Some(monitor::EXIT_ALLOC_OVER_CAP) {
 		// the allocation monitor stopped the worker: a request above 1 GiB while handling a frame
@@ -2591,7 +2648,7 @@ fn read_frame(s: &mut TcpStream, timeout_ms: u64) -> Option<(u8, Vec<u8>)> {
 	let _ = s.set_read_timeout(Some(Duration::from_millis(timeout_ms)));
 	let mut h = [0u8; HDR_LEN];
 	s.read_exact(&mut h).ok()?;
-	if h[0..2] != MAGIC {
+	if h[0..2] != MAGIC() {
 		return None;
 	}
 	let mut l = [0u8; 8];
@@ -2964,7 +3021,7 @@ fn handshake_phase(run: &Run, seed: u64, scale: u32) {
 		matrix.push(json!({"case": "self_loop", "accept": format!("{:?}", ra.map(|i| i.version.value()).map_err(|e| err_class(&e))), "initiate": format!("{:?}", ri.map_err(|e| err_class(&e)))}));
 	}
 	// Hand header with wrong magic / over-limit length
-	for (k, (magic, len)) in [([0u8, 0u8], 100u64), (MAGIC, 513), (MAGIC, u64::MAX)].iter().enumerate() {
+	for (k, (magic, len)) in [([0u8, 0u8], 100u64), (MAGIC(), 513), (MAGIC(), u64::MAX)].iter().enumerate() {
 		let hs = Arc::new(Handshake::new(genesis, P2PConfig::default()));
 		let hs2 = hs.clone();
 		let client = TcpStream::connect(laddr).expect("connect");
@@ -3058,7 +3115,7 @@ fn main() {
 	if raw.iter().any(|a| a == "--worker-limits") {
 		let seed = arg_value(&raw, "--seed").and_then(|s| s.parse().ok()).unwrap_or(1u64);
 		let scale = arg_value(&raw, "--scale").and_then(|s| s.parse().ok()).unwrap_or(1u32);
-		worker_limits(seed, scale);
+		worker_limits(seed, scale, raw.iter().any(|a| a == "--mainnet-params"));
 		return;
 	}
 	let run = Run::from_env("C19", "exploration");
@@ -3143,7 +3200,10 @@ fn main() {
 	}
 
 	// phase: limits
-	parent_limits(&run, scale);
+	parent_limits(&run, scale, false);
+	// the same limit cases under Mainnet parameters (limits 170x larger: only there can a body exceed the
+	// 48 000-byte chunk the codec reads at a time), in a process of its own because the chain type is global
+	parent_limits(&run, scale, true);
 	eprintln!("[C19] limits done at {:.1}s", t0.elapsed().as_secs_f64());
 
 	// phase: handshake
@@ -3167,6 +3227,8 @@ fn main() {
 	run.require("streams through conn::listen", run.counter("streams_ok.path_listen"), q(0, 400, 1_500));
 	run.require("frames refused before the body", run.counter("frames_refused_before_body"), q(30, 250, 250));
 	run.require("within-limit frames accepted", run.counter("frames_within_limit_accepted"), q(15, 100, 100));
+	run.require("limit cases under Mainnet parameters", run.counter("limit_cases_under_mainnet_parameters"), q(20, 200, 200));
+	run.require("unknown-type frames around / above the chunk size skipped in sync (Mainnet parameters)", run.counter("mainnet_unknown_frames_followed_by_intact_message"), q(6, 18, 18));
 	run.require("contradictory counts refused", run.counter("count_contradictions_refused"), q(40, 40, 40));
 	run.require("successful handshakes", run.counter("handshake_ok"), q(6, 18, 18));
 	run.require("different genesis refused", run.counter("handshake_genesis_refused"), q(6, 18, 18));
